@@ -6,34 +6,6 @@
 From Coq Require Import ZifyBool ZifyNat.
 From Dastard Require Import Common.ZX C07.Conc C07.Model C07.Spec C07.Proofs.
 
-Definition mwork (m : cmode) : nat := match m with MLoop => 0 | MDrain _ => 3 end.
-Definition cwork (bsize : Z) (c : cpc) : nat :=
-  match c with
-  | CSelect => 0
-  | CDrain _ => 3                                         (* default branch + final Flush *)
-  | CGate _ (KWrite p m) => 1 + (if zlen p >? bsize then 1 else 0) + mwork m
-  | CGate _ (KFlushed _) => 1
-  | CComplete _ => 0
-  | CExit => 0
-  end.
-Definition opwork (o : uop) : nat :=
-  match o with Rec ps => 1 + 4 * length ps | Flush => 6 | Close => 6 end.
-Definition pcwork (p : upc) : nat :=
-  match p with UIdle => 0 | UInRec _ rest => 4 * length rest | USend => 5 | UWait _ => 1 end.
-Definition uwork (u : uthread) : nat := pcwork (pc u) + list_sum (map opwork (prog u)).
-(* Close() has been called and the consumer has not yet picked up the closed channel *)
-Definition close_pending (c : cpc) : bool :=
-  match phase_of c with
-  | PLoop | PPre FNow | PPost FNow | PDone false => true
-  | _ => false
-  end.
-Definition V (s : st) : nat :=
-  if crashed s then 0
-  else 1 + list_sum (map uwork (us s)) + 3 * length (q s) + cwork (bsz s) (cpc_ s)
-       + (if tick s then 4 else 0) + (if closed s && close_pending (cpc_ s) then 4 else 0).
-
-Definition working (t : tid) : bool := match t with TTick => false | _ => true end.
-
 Definition VI (s : st) : Prop := Inv s /\ 0 <= bsz s.
 
 Lemma step_bsz s t s' : step s t = Some s' -> bsz s' = bsz s.
